@@ -464,7 +464,12 @@ func (cw *columnWriter) write(sid uint64, ref *record.Field, col *record.ColVal,
 	for i := range cols {
 		if cols[i].Len < cw.limit {
 			cw.remain = &cols[i]
-			cw.remainTime = &timeCols[i]
+			// The remainder is extended with AppendTimes, which rebuilds the bitmap assuming
+			// BitMapOffset == 0. A split piece keeps the bit offset of its position in the
+			// parent column (non-zero whenever the segment limit is not a multiple of 8), so
+			// copy the remaining timestamps into an offset-free column.
+			cw.remainTime = &record.ColVal{}
+			cw.remainTime.AppendTimes(timeCols[i].IntegerValues())
 			break
 		}
 		if err := cw.sw.WriteData(sid, *ref, cols[i], &timeCols[i]); err != nil {
